@@ -521,7 +521,7 @@ class Generator:
                         cur = (cmd, (int(m.group(1)), (m.group(2), m.group(3)) if cmd == "foldloop" else m.group(2)), None)
                     elif cmd == "at":
                         # optional `k/N`: the k-th of exactly N occurrences of the anchor in the arm
-                        m = re.match(r'"((?:[^"\\]|\\.)*)"\s+"((?:[^"\\]|\\.)*)"\s+(before|after)(?:\s+(\d+)/(\d+))?\s*$', arg)
+                        m = re.match(r'"((?:[^"\\]|\\.)*)"\s+"((?:[^"\\]|\\.)*)"\s+(before|after|end)(?:\s+(\d+)/(\d+))?\s*$', arg)
                         if not m:
                             raise RuntimeError("bad at directive: %r" % d)
                         un = lambda t: t.replace('\\"', '"')
@@ -929,9 +929,28 @@ class Generator:
             if prefix == "":
                 arm = {"body": it["body"]}  # no arm named: the anchor is looked for in the whole function body
             else:
-                arm = next((a for a in it.get("arms", []) if norm(src[a["pat"][0]:a["pat"][1]].decode()).startswith(norm(prefix))), None)
+                # a path of arms `A > B #2`: the first arm whose pattern starts with A, inside its body the second whose pattern starts with B
+                arm, scope = None, it["body"]
+                for step in prefix.split(" > "):
+                    mm = re.match(r"^(.*?)(?:\s+#(\d+))?$", step.strip())
+                    want, kth = norm(mm.group(1)), int(mm.group(2) or 1)
+                    cands = [a for a in it.get("arms", []) if a["span"][0] >= scope[0] and a["span"][1] <= scope[1] and norm(src[a["pat"][0]:a["pat"][1]].decode()).startswith(want)]
+                    # only the outermost candidates of this scope (an arm nested in another candidate belongs to a deeper step)
+                    cands = [a for a in cands if not any(b is not a and b["body"][0] <= a["span"][0] and a["span"][1] <= b["body"][1] for b in cands)]
+                    if len(cands) < kth:
+                        arm = None
+                        break
+                    arm = cands[kth - 1]
+                    scope = arm["body"]
             if arm is None:
                 raise Undecided("at: no match arm `%s…` (lost anchor)" % prefix)
+            if where == "end":
+                # at the end of the arm's block, whatever its statements are
+                if src[arm["body"][0]:arm["body"][0] + 1] != b"{" or src[arm["body"][1] - 1:arm["body"][1]] != b"}":
+                    raise Undecided("at: the body of arm `%s` is not a block" % prefix)
+                pos = arm["body"][1] - 1
+                common.append((pos, pos, "\n" + ghost(text) + "\n"))
+                continue
             btxt = src[arm["body"][0]:arm["body"][1]].decode()
             # anchors are compared modulo runs of white space
             pat = r"\s+".join(re.escape(w) for w in anchor.split())
